@@ -18,7 +18,7 @@ func init() {
 		Rule: "differential monitor: the seven *Along forms over every shape of rank 1..R (sizes 1..3) x every dim, and the seven whole-tensor forms over every shape of rank 0..R plus large tensors (up to 8192 elements, several rank/size layouts), with position-identifying data in three value classes (unique reals, distinct integers compared exactly, magnitudes up to 1e6); every output element and the output shape are compared with the reference statistic of the corresponding fibre (two-pass unbiased variance, 0 for a single element, Std = sqrt(Var), Avg = Mean). " +
 			"Non-trivial: the operand has >= 2 elements; distinct = (reducer, shape, dim, value class).",
 		Assumptions: []string{"sums compared within 1e-11 x sum|x| (order of summation is free), extrema exactly, variance/std within 1e-10 relative (+1e-10 x max|x|^2)"},
-		FloorQuick:  3000, FloorThor: 40000,
+		FloorQuick:  20000, FloorThor: 80000,
 		Run: runC05,
 	})
 }
@@ -65,7 +65,7 @@ func statTol(kind ref.Stat, fibre []float64) float64 {
 }
 
 func runC05(c *fw.Ctx) {
-	R := c.Pick(4, 6)
+	R := c.Pick(5, 6)
 	// ---- Along forms ----
 	for _, shape := range Shapes(1, R, 3) {
 		for dim := range shape {
